@@ -1015,6 +1015,8 @@ MUTATING_METHODS = {"insert", "append", "extend", "remove", "pop", "clear", "upd
 PROCESS_WIDE_ALLOWED = {
     ("monkeytype.cli.run_handler", "sys.argv"): "`monkeytype run` gives the script the argv it would have as `python script.py args` and restores it",
     ("monkeytype.cli.entry_point_main", "sys.path"): "the command line tool makes the current directory importable, as `python` itself does",
+    ("monkeytype.compat.<module level>", "mypy_extensions._TypedDictMeta.__eq__"):
+        "the one catalogued patch: TypedDict classes compare by name, totality and fields (compat_rules decides what it answers); hashing stays by identity",
 }
 
 
@@ -1072,6 +1074,10 @@ def rule_process_wide_setters(ctx: Ctx, repo: Repo) -> None:
                             full = canon(tt)
                             if base in PROCESS_WIDE_ATTRS and (PROCESS_WIDE_ATTRS[base] is None or tt.attr in PROCESS_WIDE_ATTRS[base]):  # type: ignore[operator]
                                 hit = (full or f"{base}.{tt.attr}", f"{base}.{tt.attr} is rebound")
+                            elif base is not None and not base.startswith("monkeytype") and isinstance(x, (ast.Assign, ast.AugAssign, ast.AnnAssign)):
+                                # an attribute of an object imported from another distribution is assigned: a monkey patch every
+                                # user of that object in the process gets to see
+                                hit = (full or f"{base}.{tt.attr}", f"{base}.{tt.attr} is assigned: a patch of an object that belongs to another package")
             if hit is None:
                 continue
             w = where(x)
